@@ -32,6 +32,7 @@ func runC17(c *Ctx) {
 	c17R4(c)
 	c17R5(c)
 	c17R6(c)
+	c17R8(c)
 	livePersisted(c, c.R.Rule("R7", "K8 what is persisted is the live instance: a pipeline/connector/processor service method that fetched an instance hands that very instance to store.Set, or a copy that sets every exported field", 10))
 }
 
@@ -535,5 +536,62 @@ func c17R5(c *Ctx) {
 			c.R.Fail(r, rel+".Init: Start", c.Pos(fn.Pos()), "no Start call found in Init")
 		}
 		c.Dominated(r, rel+".Init restarts exactly the SystemStopped pipelines", asInstrs(starts), g, "the GetStatus()==StatusSystemStopped edge")
+	}
+}
+
+// c17R8: a record is decoded into a fresh value.
+func c17R8(c *Ctx) {
+	r := c.R.Rule("R8", "K6 no leakage between stored records: in the stores' decode/migration code an Unmarshal inside a loop writes into a value allocated inside that loop (json.Unmarshal into a reused struct merges maps and keeps fields the next record does not mention)", 1)
+	inLoop := func(in ssa.Instruction) bool {
+		b := in.Block()
+		seen := map[*ssa.BasicBlock]bool{}
+		work := append([]*ssa.BasicBlock{}, b.Succs...)
+		for len(work) > 0 {
+			x := work[0]
+			work = work[1:]
+			if x == b {
+				return true
+			}
+			if seen[x] {
+				continue
+			}
+			seen[x] = true
+			work = append(work, x.Succs...)
+		}
+		return false
+	}
+	n := 0
+	for _, rel := range []string{pConn, pPipe, pProc} {
+		p := c.W.Pkg(rel)
+		if p == nil {
+			continue
+		}
+		sp := c.W.SSA[p.Types]
+		for _, fn := range c.W.AllFuncs(sp) {
+			pos := c.W.Fset.Position(fn.Pos())
+			if !strings.HasSuffix(pos.Filename, "/store.go") {
+				continue
+			}
+			for _, b := range fn.Blocks {
+				for _, in := range b.Instrs {
+					call, ok := in.(*ssa.Call)
+					if !ok {
+						continue
+					}
+					f := kit.CalleeOf(call.Common())
+					if f == nil || f.Name() != "Unmarshal" || len(call.Call.Args) != 2 || !inLoop(call) {
+						continue
+					}
+					n++
+					tgt := kit.Unwrap(call.Call.Args[1])
+					a, isAlloc := tgt.(*ssa.Alloc)
+					ok2 := isAlloc && inLoop(a)
+					c.R.Check(ok2, r, kit.FuncKey(fn)+": decodes each record into a fresh value", c.Pos(call.Pos()), "target allocated inside the loop", kit.FuncKey(fn)+" unmarshals inside a loop into a value declared outside it: settings maps merge across records and a record that lacks a key inherits the previous record's value (state, processor references) — and the migrated result is written back for good", true)
+				}
+			}
+		}
+	}
+	if n == 0 {
+		c.R.Fail(r, "store decoders with a per-record loop", "", "no Unmarshal inside a loop found in the store files (migratePre041 expected)")
 	}
 }
